@@ -182,7 +182,7 @@ class ActionKinds:
             if e.id in st:
                 return st[e.id]
             if e.id in self.class_names:
-                return vk('type')
+                return V(['type', 'class:' + e.id])         # the class object itself, remembered by name: usable as the second argument of isinstance
             return vk(UNK)
         if isinstance(e, ast.Attribute) and isinstance(e.value, ast.Name) and e.value.id == pvar:
             if e.attr in ('_slice', '_stack', '_namemap', 'lineno', 'index', 'end'):
@@ -689,10 +689,30 @@ class ActionKinds:
                         if keep:
                             return setn(gen.iter, V(cur.kinds, V(keep, el.elem, el.keys, el.nonempty), cur.keys, cur.nonempty))
             return st
-        if isinstance(test, ast.Call) and isinstance(test.func, ast.Name) and test.func.id in self.module_funcs and len(test.args) == 1 and not test.keywords and branch:
+        if isinstance(test, ast.Call) and isinstance(test.func, ast.Name) and test.func.id in self.module_funcs and len(test.args) == 2 and not test.keywords and branch:
+            # ... the same with the class handed in: `def f(x, cls)` whose true results pass `if not isinstance(x, cls): return False`
+            hf2 = self.module_funcs[test.func.id][1]
+            if len(hf2.args.args) == 2:
+                p0, p1 = hf2.args.args[0].arg, hf2.args.args[1].arg
+                for st_ in hf2.body:
+                    if isinstance(st_, (ast.Import, ast.ImportFrom)) or (isinstance(st_, ast.Expr) and isinstance(st_.value, ast.Constant)):
+                        continue
+                    t_ = None
+                    if isinstance(st_, ast.If) and not st_.orelse and len(st_.body) == 1 and isinstance(st_.body[0], ast.Return) \
+                            and isinstance(st_.body[0].value, ast.Constant) and st_.body[0].value.value is False \
+                            and isinstance(st_.test, ast.UnaryOp) and isinstance(st_.test.op, ast.Not):
+                        t_ = st_.test.operand
+                    elif isinstance(st_, ast.Return) and isinstance(st_.value, ast.BoolOp) and isinstance(st_.value.op, ast.And):
+                        t_ = st_.value.values[0]
+                    if isinstance(t_, ast.Call) and dotted(t_.func) == 'isinstance' and len(t_.args) == 2 and isinstance(t_.args[0], ast.Name) and t_.args[0].id == p0 \
+                            and isinstance(t_.args[1], ast.Name) and t_.args[1].id == p1:
+                        return self.narrow(ast.Call(func=ast.Name(id='isinstance', ctx=ast.Load()), args=[test.args[0], test.args[1]], keywords=[]), st, True, prod, pvar)
+                    break
+        if isinstance(test, ast.Call) and isinstance(test.func, ast.Name) and (test.func.id in self.module_funcs or test.func.id in getattr(self, '_local_funcs', {})) \
+                and len(test.args) == 1 and not test.keywords and branch:
             # a type predicate: a helper `def f(x)` that answers True only for instances of some classes - every path to a true result passes
             # `if not isinstance(x, C): return False` (guard form) or the result is `isinstance(x, C) and ...`
-            hf = self.module_funcs[test.func.id][1]
+            hf = (self.module_funcs.get(test.func.id) or self._local_funcs[test.func.id])[1]
             if len(hf.args.args) == 1:
                 par = hf.args.args[0].arg
                 guard = None
@@ -718,6 +738,13 @@ class ActionKinds:
                 a1 = self.class_tuples[a1.id]
             ts = a1.elts if isinstance(a1, ast.Tuple) else [a1]
             names = {(dotted(t) or UNK).split('.')[-1] for t in ts}
+            if isinstance(a1, ast.Name) and a1.id in st:
+                # a local that holds a class (or one of several classes): the classes its value can be
+                held = self.ev(a1, st, prod, pvar, None)
+                cands = set(held.kinds) | (set(held.elem.kinds) if held.elem is not None else set())
+                cls_ = {k[6:] for k in cands if k.startswith('class:')}
+                if cls_:
+                    names = cls_
             def matches(k):
                 if k in names:
                     return True
@@ -831,6 +858,11 @@ class ActionKinds:
             st[a.vararg.arg] = V(['tuple'], vk(UNK))
         if a.kwarg:
             st[a.kwarg.arg] = V(['dict'], vk(UNK), None)
+        # predicates defined inside this function (`def is_bare_not(node): return isinstance(node, C) and ...`) narrow like the module-level ones
+        self._local_funcs = getattr(self, '_local_funcs', {})
+        for s_ in fn.body:
+            if isinstance(s_, ast.FunctionDef):
+                self._local_funcs[s_.name] = (file, s_)
         if self_kind is not None:
             # what a constructor hands on with super().__init__(*args, **kwargs)
             named = set(params) | {x.arg for x in a.kwonlyargs}
